@@ -32,6 +32,9 @@ def gen_case(rng, k):
 
 def finish_case(rng, segs, c):
     r2 = random.Random(c["seed"] ^ 0xC15)
+    if len(segs) > 1 and r2.random() < 0.15:
+        c["entry"] = "irun_chain"
+        return c
     if c["intervals"] and len(segs) > 1 and r2.random() < 0.35:
         # observer.interval is a public attribute: re-tuned between two run calls (log every step while equilibrating, every k-th afterwards)
         c["retune"] = {"seg": r2.randint(1, len(segs) - 1), "obs": r2.randrange(len(c["intervals"])), "interval": r2.choice([1, 2, 3, 5, -4, -8])}
